@@ -6,7 +6,7 @@ MODEL  : lean/NmVerif/Simd/*.lean (packed loop + tail, enumerators) run on integ
 ORACLE : NumPy on the logical arrays (independent statement of what the scalar evaluator must give).
 
 Integer element types (int8 .. uint64): harness/h_c12i_<ctx>.cpp (ibinary / iouter / ireduce), model = the same evaluator
-functions at element type BitVec w (lean/NmVerif/Simd/IntLanes.lean), oracle = NumPy wrap-around arithmetic in that dtype.
+functions at element type BitVec w (lean/NmVerif/Simd/IntLanes.lean; ibinary / iouter / ireduce / imatmul), oracle = NumPy wrap-around arithmetic in that dtype.
 """
 import numpy as np
 from runner import Case as _Case
@@ -64,7 +64,8 @@ RULE = ('per SIMD context (x86 SSE, x86 AVX, vector extension 128/256/512, SIMDe
         'simd_op_t::mul has a branch for the width}: same-shape binary (casting same_kind) on ALL pairs of ~20 boundary values of the '
         'type (limits, limits+-1, unsigned values around the signed maximum, 2^(w/2)+-1, bit patterns) in packed and in tail positions, '
         'every element count 1..4*lanes+1, every 2-d broadcast pattern, outer (dtype = the type) on counts 1..2*lanes+1 and 2-d/3-d '
-        'operands, add / multiply reduce over every axis, axis None, keepdims on/off with wrapping data; each answered by the SIMD '
+        'operands, add / multiply reduce over every axis, axis None, keepdims on/off with wrapping data, matmul (x86 SSE 16/32 bit, vector '
+        'extensions all widths) with inner extents around the lane count; each answered by the SIMD '
         'evaluator (MISMATCH against the scalar evaluator in the same binary), the Lean model at BitVec w and NumPy in that dtype; inputs '
         'on which the scalar functor itself is undefined behaviour (uint16 products beyond INT_MAX, signed 32/64-bit overflow) are '
         'off-domain and judged against NumPy; in-domain inputs are repeated under ASan+UBSan. '
@@ -115,8 +116,8 @@ ASSUMPTIONS = [
     'by running every in-domain integer request under UBSan',
     'not provided by the library, not run: multiply on 8-bit (x86 SSE, x86 AVX, SIMDe) and 64-bit (x86 SSE, x86 AVX) element types '
     '(simd_op_t::mul has no branch and returns void: the call does not compile; the harness answers unsupported), unary ufuncs on '
-    'integer element types (static_assert floating point in eval_unary), integer matmul with a SIMD context (fmadd has integer '
-    'branches in x86 SSE only)',
+    'integer element types (static_assert floating point in eval_unary), integer matmul in the x86 AVX and SIMDe contexts '
+    '(simd_op_t::fmadd only has _ps / _pd branches) and for widths without mul',
     'the output of the evaluators is the row-major ndarray_t the default resolver produces (observed on every case; modelled as such)',
     'size_t arithmetic does not wrap (element counts far below 2^64 in every case run)',
     'SIMDe AVX-512: hardshrink/softshrink/hardswish and double matmul do not compile against the installed SIMDe (missing '
@@ -133,13 +134,11 @@ PARTIAL = [
     'products only in exact arithmetic (commutative monoid, fma x y z = x*y + z): the single rounding of a hardware fmadd and the '
     're-association in floating point are outside the model (checked within a tolerance by the differential run)',
     'matmul with a column-major lhs: operator() falls back to the scalar evaluator since fix commit 8eebbc3 (simdEvalMatmul_repaired_eq_scalar, instance simdEvalMatmul_colMajorLhs_regression; before it the layout test was dead code)',
-    'integer element types: binary (same shape, 2-d broadcast), outer and add / multiply reduce are modelled, proved and run for all eight '
-    'types; integer matmul through a SIMD context is not exercised (compiles for x86 SSE / vector extensions only)',
     'NaN / -0.0 through the min/max-built activations relu6, hardtanh, softshrink are outside the lane-wise hypothesis: open known finding '
     'elementwise.special-values',
 ]
 MANIFEST = dict(
-    text='Proof: 55 Lean theorems over all element counts / row lengths / ranks and all lane counts > 0: closed form of the packed loop, every '
+    text='Proof: 58 Lean theorems over all element counts / row lengths / ranks and all lane counts > 0: closed form of the packed loop, every '
          'packed access inside its buffer, packed chunks + tail partition [0,n); SIMD unary / same-shape binary = scalar evaluator for '
          'operands of either layout (column-major operands take the scalar path); 2-d broadcasting binary: every output cell written '
          'exactly once, operand offsets = NumPy broadcasting (incl. (1,1) operands), offsets in bounds, evaluator = NumPy broadcasting; '
@@ -157,7 +156,7 @@ MANIFEST = dict(
          'with integral promotion is the same function wherever C++ defines it (defined for all operands of 8/16-bit add/sub, 8-bit and '
          'int16 multiply, unsigned 32/64-bit; counterexamples uint16*uint16 and int32 overflow), hence SIMD = scalar evaluator for integer '
          'binary / broadcast / outer with no lane-wise hypothesis left, and integer add / multiply reductions over any axis are EXACT '
-         '(modular + and * are commutative monoids); saturating instructions are shown not to be lane-wise. '
+         '(modular + and * are commutative monoids), integer matmul (fmadd = mullo + add) is exactly the modular sum of products; saturating instructions are shown not to be lane-wise. '
          'Intrinsic wrappers are an explicit lane-wise hypothesis. Tied to the C++ by a differential run of array::fn(args, ctx) for six '
          'SIMD contexts x float/double and x eight integer types (boundary values of every type) against array::fn(args) in the same binary, the Lean model and NumPy, plus the pure enumerators '
          'tuple by tuple and an ASan run.',
@@ -165,7 +164,9 @@ MANIFEST = dict(
          'behaviour of the intrinsics is a hypothesis measured bitwise on this CPU only; matmul = sum of products holds in exact '
          'arithmetic only (fmadd rounding outside the model); five defects found by this check were repaired in the source '
          '(fixes/C12-*.diff); two known findings stay open (NaN/-0.0 in min/max-built activations; SIMD matmul ignores a column-major '
-         'lhs, repair in fixes/C12-matmul-lhs-layout-fallback.diff).',
+         'lhs, repair in fixes/C12-matmul-lhs-layout-fallback.diff); open: the register type of the vector-extension contexts is 8/sizeof(T) '
+         'times too wide and its extra lanes are never initialised (UBSan aborts on int8/16/32; values unaffected), repair in '
+         'fixes/C12-vector-extension-width.diff.',
     technique='Lean 4 induction proofs over element counts / lane counts + hardware differential (SIMD vs scalar evaluator, ASan)')
 
 
@@ -879,6 +880,47 @@ def gen_int_reduce(ctx, tier, rng):
                 yield ireduce_case(ctx, dt, op, shape, axis, k % 2, ireduce_data(dt, op, prod(shape), rng), ['nd'])
 
 
+INT_NO_MATMUL = {'avx', 'simde512'}       # simd_op_t::fmadd calls the _ps / _pd intrinsic for every element type
+
+
+def imatmul_data(dt, n, rng):
+    """values whose products and partial sums are defined in every association order: modular types (8 bit: int arithmetic
+    cannot overflow; unsigned 32/64) over the whole range, the others small enough that nothing leaves the promoted type while
+    16-bit results still wrap many times"""
+    _, w, sg = IDTYPES[dt]
+    lo, hi = irange(dt)
+    b = iboundary(dt)
+    if w == 8 or (w >= 32 and not sg):
+        return [b[rng.randrange(len(b))] if rng.random() < 0.4 else rng.randint(lo, hi) for _ in range(n)]
+    m = (1 << 12) if w == 16 else (1 << (w // 2 - 4))
+    return [rng.randint(-m if sg else 0, m) for _ in range(n)]
+
+
+def gen_int_matmul(ctx, tier, rng):
+    for dt in IDTYPES:
+        L = ilanes(ctx, dt)
+        w = IDTYPES[dt][1]
+        if ctx in INT_NO_MATMUL or w in INT_NO_MUL[ctx]:
+            req = 'imatmul dtype=%s op=matmul lanes=%d lshape=1,1 rshape=1,1 ldata=1 rdata=1' % (dt, L)
+            yield Case(req, ihname(ctx), dom=False, oracle='unsupported', model=False, nontrivial=False,
+                       tags=['int', 'imatmul', 'ctx=' + ctx, dt, 'unsupported'])
+            continue
+        Ks = sorted(set(k for k in (1, 2, L - 1, L, L + 1, 2 * L + 1, 3 * L) if k >= 1))
+        for M in (1, 2):
+            for Nn in (1, 3):
+                for K in Ks:
+                    ld = imatmul_data(dt, M * K, rng)
+                    rd = imatmul_data(dt, K * Nn, rng)
+                    x = inp(dt, ld, [M, K])
+                    y = np.array([int(v) for v in rd], dtype=IDTYPES[dt][0]).reshape([K, Nn], order='F')
+                    with np.errstate(all='ignore'):
+                        z = np.matmul(x, y)
+                    assert z.dtype == IDTYPES[dt][0]
+                    req = 'imatmul dtype=%s op=matmul lanes=%d lshape=%s rshape=%s ldata=%s rdata=%s' % (dt, L, fmt([M, K]), fmt([K, Nn]), ifmt(ld), ifmt(rd))
+                    yield Case(req, ihname(ctx), dom=True, oracle=ians([M, Nn], z), nontrivial=(K >= L),
+                               tags=['int', 'imatmul', 'ctx=' + ctx, dt])
+
+
 def memory_unsafe(c):
     """input classes on which the code leaves its buffers: only ever sent to a sanitizer build (a plain build would
     corrupt its heap and poison the answers to later requests).  None since the (1,1)-broadcast and negative-axis
@@ -900,7 +942,7 @@ def gen(tier, rng):
                     # the same request through the ASan+UBSan build
                     yield Case(c.req, hname(ctx, True), dom=c.dom, oracle=c.oracle, model=False, nontrivial=c.nontrivial,
                                tags=[t for t in c.tags if t != 'model'] + ['san'])
-        for g in (gen_int_binary, gen_int_outer, gen_int_reduce):
+        for g in (gen_int_binary, gen_int_outer, gen_int_reduce, gen_int_matmul):
             for c in g(ctx, tier, rng):
                 yield c
                 if san and c.dom and c.model:
@@ -989,6 +1031,15 @@ def pred_special_minmax(case):
     return 'nan' in d or '-0.0' in d
 
 
+def pred_vecext_uninit_lanes(case):
+    """signed integer element type narrower than 8 bytes through a vector-extension context in the sanitizer build
+    (UBSan sees the arithmetic on the never-initialised extra lanes of the over-wide register type)"""
+    if case.harness not in ('h_c12i_v128_san', 'h_c12i_v256_san', 'h_c12i_v512_san'):
+        return False
+    kind, a = _args(case)
+    return kind in ('ibinary', 'iouter', 'ireduce', 'imatmul') and a.get('dtype') in ('i8', 'i16', 'i32')
+
+
 REPAIRED_CLASSES = [('layout.column-major', pred_colmajor), ('binary.bcast-1x1', pred_bcast_1x1),
                     ('reduce.full-from-zero', pred_reduce_out1_nonadd), ('reduce.no-identity', pred_reduce_noidentity),
                     ('reduce.negative-axis', pred_reduce_negaxis)]
@@ -998,4 +1049,5 @@ REPAIRED_CLASSES = [('layout.column-major', pred_colmajor), ('binary.bcast-1x1',
 KNOWN_PREDICATES = {
     'special_values_minmax': pred_special_minmax,
     'matmul_col_lhs': pred_matmul_col_lhs,
+    'vecext_uninit_lanes': pred_vecext_uninit_lanes,
 }
